@@ -359,7 +359,11 @@ class Negative(Term):
         return self.term.is_aggregate
 
     def get_sql(self, ctx: SqlContext) -> str:
-        return "-{term}".format(term=self.term.get_sql(ctx))
+        term_sql = self.term.get_sql(ctx)
+        # -(a+1) must not become -a+1, and a second minus must not form the "--" comment opener
+        if isinstance(self.term, ArithmeticExpression) or term_sql.startswith("-"):
+            term_sql = "({})".format(term_sql)
+        return "-{term}".format(term=term_sql)
 
 
 class ValueWrapper(Term):
@@ -1163,14 +1167,17 @@ class ArithmeticExpression(Term):
     def get_sql(self, ctx: SqlContext) -> str:
         left_op, right_op = [getattr(side, "operator", None) for side in [self.left, self.right]]
 
+        left_sql = self.left.get_sql(ctx)
+        right_sql = self.right.get_sql(ctx)
+        right_parens = self.right_needs_parens(self.operator, right_op)
+        if self.operator == Arithmetic.sub and right_sql.startswith("-"):
+            # a - -1 would otherwise be written a--1, which opens a comment
+            right_parens = True
+
         arithmetic_sql = "{left}{operator}{right}".format(
             operator=self.operator.value,
-            left=("({})" if self.left_needs_parens(self.operator, left_op) else "{}").format(
-                self.left.get_sql(ctx)
-            ),
-            right=("({})" if self.right_needs_parens(self.operator, right_op) else "{}").format(
-                self.right.get_sql(ctx)
-            ),
+            left=("({})" if self.left_needs_parens(self.operator, left_op) else "{}").format(left_sql),
+            right=("({})" if right_parens else "{}").format(right_sql),
         )
 
         if ctx.with_alias:
